@@ -22,6 +22,16 @@ impl Rng {
   }
 }
 
+/// "wide" cases (one in three) leave the small bounds of the enumerated groups: parameters up to 8, sources of up to 9 items
+/// with values 0..9, up to 12 stimuli
+static WIDE: std::sync::atomic::AtomicBool = std::sync::atomic::AtomicBool::new(false);
+fn wide() -> bool {
+  WIDE.load(std::sync::atomic::Ordering::Relaxed)
+}
+fn lim(small: u64, big: u64) -> u64 {
+  if wide() { big } else { small }
+}
+
 fn ev(k: &str, v: i64) -> Ev {
   Ev { k: k.into(), v }
 }
@@ -37,8 +47,8 @@ fn leaf(r: &mut Rng, used_probe1: &mut bool, used_cold: &mut bool, allow_ill: bo
       2 if !*used_cold => {
         *used_cold = true;
         let mut t = Term::leaf("cold", 3);
-        let n = r.below(4);
-        let mut sc: Vec<Ev> = (0..n).map(|_| ev("n", r.below(3) as i64)).collect();
+        let n = r.below(lim(4, 8));
+        let mut sc: Vec<Ev> = (0..n).map(|_| ev("n", r.below(lim(3, 10)) as i64)).collect();
         match r.below(4) {
           0 => sc.push(ev("c", 0)),
           1 => sc.push(ev("e", 7)),
@@ -58,7 +68,7 @@ fn leaf(r: &mut Rng, used_probe1: &mut bool, used_cold: &mut bool, allow_ill: bo
       }
       3 => {
         let mut t = Term::leaf("from_iter", 0);
-        t.items = (0..r.below(4)).map(|_| r.below(3) as i64).collect();
+        t.items = (0..r.below(lim(4, 10))).map(|_| r.below(lim(3, 10)) as i64).collect();
         return t;
       }
       4 => return Term::leaf("just", r.below(3) as i64),
@@ -66,7 +76,7 @@ fn leaf(r: &mut Rng, used_probe1: &mut bool, used_cold: &mut bool, allow_ill: bo
       6 => return Term::leaf("error", 4),
       7 => {
         let mut t = Term::leaf("range", 1);
-        t.b = r.below(4) as i64;
+        t.b = r.below(lim(4, 9)) as i64;
         return t;
       }
       _ => {}
@@ -75,7 +85,7 @@ fn leaf(r: &mut Rng, used_probe1: &mut bool, used_cold: &mut bool, allow_ill: bo
 }
 
 fn unary(r: &mut Rng, x: Term) -> Term {
-  let n = r.below(4) as i64;
+  let n = r.below(lim(4, 9)) as i64;
   match r.below(34) {
     0 => Term::un("map", 1, "inc", x),
     1 => Term::un("filter", 1, "ge", x),
@@ -105,7 +115,7 @@ fn unary(r: &mut Rng, x: Term) -> Term {
       t.items = vec![8, 9];
       t
     }
-    20 => Term::un("buffer_with_count", 1 + r.below(2) as i64, "", x),
+    20 => Term::un("buffer_with_count", 1 + r.below(lim(2, 5)) as i64, "", x),
     21 => Term::un("materialize", 0, "", x),
     22 => Term::un("dematerialize", 0, "", Term::un("materialize", 0, "", x)),
     23 => {
@@ -113,10 +123,10 @@ fn unary(r: &mut Rng, x: Term) -> Term {
       t.id = 2;
       t
     }
-    24 => Term::un("flat_map", 0, "obs", Term::un("window_with_count", 1 + r.below(3) as i64, "", x)),
+    24 => Term::un("flat_map", 0, "obs", Term::un("window_with_count", 1 + r.below(lim(3, 6)) as i64, "", x)),
     25 => Term::un("flat_map", 0, "obs", Term::un("group_by", 0, "", x)),
     26 => Term::un("flat_map", 0, *r.pick(&["just", "pair", "err1", "empty"]), x),
-    27 => Term::un("retry", 1 + r.below(3) as i64, "", x),
+    27 => Term::un("retry", 1 + r.below(lim(3, 5)) as i64, "", x),
     28 => Term::un("retry_when", 7, *r.pick(&["never", "payload"]), x),
     29 => Term::un("on_error_resume_next", 0, *r.pick(&["just", "empty", "error"]), x),
     30 => Term::un("sum_and_count", 0, "", x),
@@ -167,6 +177,8 @@ fn has_op(t: &Term, op: &str) -> bool {
 /// one random case: the stimuli are chosen step by step from what is possible in the real world state
 pub fn fuzz_case(seed: u64, max_stims: usize, allow_ill: bool) -> (Case, Run) {
   let mut r = Rng(seed.wrapping_mul(0x9E3779B97F4A7C15) | 1);
+  WIDE.store(seed % 3 == 0, std::sync::atomic::Ordering::Relaxed);
+  let max_stims = if wide() { max_stims.max(12) } else { max_stims };
   let depth = 2 + r.below(4);
   let root = random_term(&mut r, depth, allow_ill);
   // retry(n) over an always-failing synchronous source recurses without bound only for n = 0, which is never generated
@@ -189,12 +201,12 @@ pub fn fuzz_case(seed: u64, max_stims: usize, allow_ill: bool) -> (Case, Run) {
     }
     let n_subs = case.stims.iter().filter(|s| s.st.k == "sub").count() as i64;
     let choice = r.below(10);
-    let st = if choice < 6 && !regs.is_empty() {
+    let st = if choice < lim(6, 8) && !regs.is_empty() {
       let (i, inst) = *r.pick(&regs);
-      match r.below(7) {
+      match r.below(lim(7, 12)) {
         0 => mk("emit", i, inst, 0, "c"),
         1 => mk("emit", i, inst, 5, "e"),
-        _ => mk("emit", i, inst, r.below(3) as i64, "n"),
+        _ => mk("emit", i, inst, r.below(lim(3, 10)) as i64, "n"),
       }
     } else if choice == 6 {
       mk("unsub", 1 + r.below(n_subs as u64) as i64, 0, 0, "")
